@@ -144,6 +144,11 @@ func init() {
 		m.set(&dhs[rulesIdx], out)
 		return nil
 	})
+	// String() of a generated message (prototext formatting) is only ever used to word error
+	// messages: a placeholder
+	reg("(google.golang.org/protobuf/internal/impl.Export).MessageStringOf", func(m *Machine, fn *ssa.Function, args []Value) Value {
+		return Str{S: "<proto message>"}
+	})
 	reg("math/rand.Intn", func(m *Machine, fn *ssa.Function, args []Value) Value {
 		n := m.ConcInt(args[0])
 		if n <= 0 {
